@@ -384,6 +384,29 @@ class C07(PropertyCheck):
             else:
                 yield {"tag": "signals_delaunay", "kind": "signals", "source": "delaunay",
                        "points": self._delaunay_points(rng, rng.randint(4, 9)), "signal_scale": q(scale), **frame}
+        # 7. histories on ONE linear object: read the block, copy.copy / re-assign `regularization`
+        #    (another scheme, another coefficient, None), read again — the block must be the CURRENT scheme's
+        hist_schemes = ["Constant", "Constant", "AdaptiveBrightness", "ConstantZeroth", "Zeroth",
+                        "BrightnessZeroth", None, None]
+        for _ in range(50 if quick else 400):
+            steps = []
+            for k in range(rng.randint(2, 4)):
+                name = rng.choice(hist_schemes)
+                if k > 0 and name == steps[-1]["scheme"] == None:
+                    name = "Constant"
+                if name is None:
+                    steps.append({"scheme": None, "args": [], "signal_scale": None, "copy": rng.random() < 0.6})
+                else:
+                    args, ss = self._scheme_args(rng, name)
+                    steps.append({"scheme": name, "args": args, "signal_scale": ss, "copy": rng.random() < 0.6})
+            c = {"kind": "history", "steps": steps, "extra": rng.randint(1, 2), "extra_first": rng.random() < 0.5}
+            if rng.random() < 0.6:
+                n = rng.randint(2, 6)
+                c.update({"tag": "history_mock", "source": "mock", "mock": self._mock_obj(rng, n, True, False)})
+            else:
+                c.update({"tag": "history_rect", "source": "rect",
+                          "mesh_shape": [rng.randint(3, 4), rng.randint(3, 4)], **self._data_frame(rng)})
+            yield c
         # 6. block-diagonal assembly over linear objects
         for _ in range(80 if quick else 600):
             k = rng.randint(1, 4)
@@ -410,6 +433,8 @@ class C07(PropertyCheck):
             return self._impl_util(aa, case)
         if kind == "signals":
             return self._impl_signals(aa, case)
+        if kind == "history":
+            return self._impl_history(aa, case)
         return self._impl_inversion(aa, case)
 
     def _resolve_kernel_scale(self, case, pts):
@@ -524,6 +549,47 @@ class C07(PropertyCheck):
         }
         return {"signals": qlist(np.asarray(s)), "inputs": inputs}
 
+    def _impl_history(self, aa, case):
+        """one linear object through a sequence of `regularization` re-assignments (directly or on a
+        `copy.copy`), its block read after every step through `linear_obj.regularization_matrix`, a
+        `MockInversion` and (real mappers) a real `aa.Inversion`"""
+        import copy
+
+        if case["source"] == "mock":
+            cur = _mock_mapper(aa, case["mock"], regularization=None)
+            tables_for = lambda name, ss: dict(case["mock"])
+            real_ds = None
+        else:
+            cur = _real_mapper(aa, case)
+            base = cur
+            tables_for = lambda name, ss: _tables_of(base, name, ss or "1", False)
+            mask = cur.mapper_grids.mask
+            real_ds = aa.DatasetInterface(
+                data=aa.Array2D(values=np.array([fl(v) for v in case["adapt"]]), mask=mask),
+                noise_map=aa.Array2D(values=np.ones(len(case["adapt"])), mask=mask), convolver=None)
+        n = int(cur.params)
+        out = []
+        for st in case["steps"]:
+            reg = None if st["scheme"] is None else _make_scheme(aa, st["scheme"], st["args"], st.get("signal_scale"))
+            if st.get("copy"):
+                cur = copy.copy(cur)
+            cur.regularization = reg
+            block = np.asarray(cur.regularization_matrix)
+            extra = aa.m.MockLinearObj(parameters=case["extra"], regularization=None)
+            objs = [extra, cur] if case["extra_first"] else [cur, extra]
+            inv = aa.m.MockInversion(linear_obj_list=objs)
+            o = {"block": qmat(block), "inv": qmat(np.asarray(inv.regularization_matrix)),
+                 "reduced": qmat(np.asarray(inv.regularization_matrix_reduced))}
+            if real_ds is not None:
+                rinv = aa.Inversion(dataset=real_ds, linear_obj_list=[cur],
+                                    settings=aa.SettingsInversion(use_w_tilde=False))
+                o["real_inv"] = qmat(np.asarray(rinv.regularization_matrix))
+            if reg is not None:
+                o["weights"] = qlist(np.asarray(reg.regularization_weights_from(linear_obj=cur)))
+                o["tables"] = tables_for(st["scheme"], st.get("signal_scale"))
+            out.append(o)
+        return {"params": n, "steps": out, "inputs": {}}
+
     def _impl_inversion(self, aa, case):
         objs = []
         blocks = []
@@ -586,6 +652,19 @@ class C07(PropertyCheck):
         if kind == "signals":
             return [{"op": "c07.util", "fn": "pixel_signals", "signal_scale": int(Fraction(case["signal_scale"])),
                      **obs["inputs"]}]
+        if kind == "history":
+            reqs = []
+            n = obs["params"]
+            ex = {"params": case["extra"], "matrix": None}
+            for st, so in zip(case["steps"], obs["steps"]):
+                if st["scheme"] is None:
+                    mo = {"params": n, "matrix": None}
+                else:
+                    mo = {"params": n, "scheme": st["scheme"], "args": st["args"], "obj": so["tables"]}
+                reqs.append({"op": "c07.inversion", "objs": [mo], "ridge": q(RIDGE), "ridge2": q(RIDGE2)})
+                reqs.append({"op": "c07.inversion", "objs": [ex, mo] if case["extra_first"] else [mo, ex],
+                             "ridge": q(RIDGE), "ridge2": q(RIDGE2)})
+            return reqs
         objs = []
         for o in case["objs"]:
             if o["type"] == "linear_obj":
@@ -625,6 +704,14 @@ class C07(PropertyCheck):
         if kind == "signals":
             r = responses[0]
             return {"signals": r["ok"]} if "ok" in r else {"err": r["err"]}
+        if kind == "history":
+            steps = []
+            for k in range(0, len(responses), 2):
+                a, b = responses[k], responses[k + 1]
+                if "err" in a or "err" in b:
+                    return {"err": a.get("err") or b.get("err")}
+                steps.append({"block": a["ok"]["matrix"], "inv": b["ok"]["matrix"], "reduced": b["ok"]["reduced"]})
+            return {"steps": steps}
         r = responses[0]
         return r["ok"] if "ok" in r else {"err": r["err"]}
 
@@ -661,6 +748,17 @@ class C07(PropertyCheck):
             return sub(impl, model, Fraction(1, 10 ** 12))
         if kind == "signals":
             return sub({"signals": impl["signals"]}, model, Fraction(1, 10 ** 10))
+        if kind == "history":
+            a = {"steps": [{k: so[k] for k in ("block", "inv", "reduced")} for so in impl["steps"]]}
+            d = sub(a, model, Fraction(1, 10 ** 10))
+            if d:
+                return d
+            for k, so in enumerate(impl["steps"]):
+                if "real_inv" in so:
+                    d = sub(so["real_inv"], model["steps"][k]["block"], Fraction(1, 10 ** 10))
+                    if d:
+                        return f"step {k} aa.Inversion: " + d
+            return None
         a = {k: impl[k] for k in ("matrix", "reduced", "no_reg")}
         return sub(a, model, Fraction(1, 10 ** 12))
 
@@ -675,6 +773,8 @@ class C07(PropertyCheck):
             return self._oracle_util(case, obs)
         if kind == "signals":
             return self._oracle_signals(case, obs)
+        if kind == "history":
+            return self._oracle_history(case, obs)
         return self._oracle_inversion(case, obs)
 
     @staticmethod
@@ -956,6 +1056,49 @@ class C07(PropertyCheck):
                 return False, f"pixel signal {i}: {float(got[i])!r}, expected {float(e[i])!r}"
         return True, ""
 
+    def _oracle_history(self, case, obs):
+        """after every step the block is the one of the CURRENT scheme (stated quadratic form / zero
+        block), through every access route"""
+        n = obs["params"]
+        e = case["extra"]
+        for k, (st, so) in enumerate(zip(case["steps"], obs["steps"])):
+            where = f"step {k} ({st['scheme']}{' on a copy' if st.get('copy') else ''})"
+            B = [[Fraction(v) for v in r] for r in so["block"]]
+            if len(B) != n or any(len(r) != n for r in B):
+                return False, f"{where}: block is not {n} x {n}"
+            if st["scheme"] is None:
+                if any(v != 0 for r in B for v in r):
+                    return False, f"{where}: object without a regularization scheme has a non-zero block"
+            else:
+                pseudo_case = {"kind": "scheme", "source": case["source"], "scheme": st["scheme"],
+                               "symmetric": True}
+                pseudo_obs = {"shape": [n, n], "weights": so["weights"], "matrix": so["block"],
+                              "inputs": {"tables": so["tables"], "args": st["args"]}}
+                ok, d = self._oracle_scheme(pseudo_case, pseudo_obs)
+                if not ok:
+                    return False, f"{where}: linear_obj.regularization_matrix is not the current scheme's matrix: {d}"
+            # the inversions see the same block, at the object's offset, next to a zero block
+            H = [[Fraction(v) for v in r] for r in so["inv"]]
+            off = e if case["extra_first"] else 0
+            if len(H) != n + e:
+                return False, f"{where}: assembled matrix has size {len(H)}, expected {n + e}"
+            for i in range(n + e):
+                for j in range(n + e):
+                    inside = off <= i < off + n and off <= j < off + n
+                    exp = B[i - off][j - off] if inside else 0
+                    if H[i][j] != exp:
+                        return False, f"{where}: Inversion.regularization_matrix[{i}][{j}] = {float(H[i][j])!r}, expected {float(exp)!r}"
+            keep = [i for i in range(n + e) if (off <= i < off + n) or False]
+            if st["scheme"] is None:
+                keep = []
+            R = [[Fraction(v) for v in r] for r in so["reduced"]]
+            expR = [[H[i][j] for j in keep] for i in keep]
+            if R != expR and not (not keep and all(len(r) == 0 for r in R)):
+                return False, f"{where}: regularization_matrix_reduced is not the current scheme's block"
+            if "real_inv" in so and [[Fraction(v) for v in r] for r in so["real_inv"]] != B:
+                return False, f"{where}: aa.Inversion(...).regularization_matrix differs from the object's current block"
+        return True, ""
+
     def _oracle_inversion(self, case, obs):
         H = [[Fraction(v) for v in r] for r in obs["matrix"]]
         sizes = [o["params"] for o in case["objs"]]
@@ -1002,6 +1145,8 @@ class C07(PropertyCheck):
                                          or sum(t.get("sizes", [0])) > 0 or bool(t.get("split")))
         if kind == "inversion":
             return len(case["objs"]) >= 2
+        if kind == "history":
+            return len({(st["scheme"], tuple(st["args"])) for st in case["steps"]}) >= 2
         return case.get("n", 2) >= 2
 
     def shrink(self, case):
@@ -1027,6 +1172,9 @@ class C07(PropertyCheck):
             return ["C07.linear_obj_without_scheme_zero_block", "C07.block_diag_entry", "C07.block_diag_quad"]
         if kind == "signals":
             return ["C07.adaptive_scheme_uses_reported_weights"]
+        if kind == "history":
+            return ["C07.linear_obj_without_scheme_zero_block", "C07.block_diag_entry", "C07.constant_quad_pairs",
+                    "C07.weighted_quad_pairs"]
         name = case.get("scheme") or case.get("fn")
         table = {
             "Constant": ["C07.constant_quad", "C07.constant_quad_pairs", "C07.constant_symm", "C07.constant_posdef"],
